@@ -835,7 +835,9 @@ impl<'a, 'ast> Visit<'ast> for Ed<'a> {
             }
         }
         // E3: `.then_yield()` only adds a suspension point
-        if e.method == "then_yield" && e.args.is_empty() {
+        // (only in directives that use E20: elsewhere `then_yield` is significant — the idle turn of
+        // `execute` is verified as a call of the scheduler stand-in)
+        if e.method == "then_yield" && e.args.is_empty() && !self.dir.caughts.is_empty() {
             let rr = e.receiver.span().byte_range();
             let es = e.span().byte_range();
             self.push(rr.end, es.end, "", "E3-then-yield", false);
